@@ -44,16 +44,22 @@ def check_set_case(c):
     import pymoto as pym
     p = c["par"]
     aset = pym.AggActiveSet(lower_rel=q(p["lower_rel"]), upper_rel=q(p["upper_rel"]), lower_amt=q(p["lower_amt"]), upper_amt=q(p["upper_amt"]))
-    x = np.array(c["x"], dtype=float)
-    sel = aset(x)
-    if sel is Ellipsis:
-        got = list(range(1, len(x) + 1))
-    else:
-        got = [int(i) + 1 for i in np.flatnonzero(sel)]
+    x0 = np.array(c["x"], dtype=float)
     masks = [sorted(m) for m in c["masks"]]
-    if got not in masks:
-        kind = "all-removed" if not got else ("band" if len(masks) == 1 else "ties")
-        return kind, "AggActiveSet(%s)(%s) keeps %s, admissible: %s" % ({k: q(v) for k, v in p.items()}, c["x"], got, masks)
+    # the active set depends on the data only through (x - min) / (max - min) and the order: every positive affine image of the
+    # data must give the same set. Offsets and factors are powers of two, so the normalised values are bit-identical.
+    for a, b in ((0.0, 1.0), (2.0 ** 20, 1.0), (1.0, 2.0 ** -20), (0.0, 2.0 ** -30)):
+        x = a + b * x0
+        sel = aset(x)
+        if sel is Ellipsis:
+            got = list(range(1, len(x) + 1))
+        else:
+            got = [int(i) + 1 for i in np.flatnonzero(sel)]
+        if got not in masks:
+            kind = "all-removed" if not got else ("band" if len(masks) == 1 else "ties")
+            return kind, "AggActiveSet(%s)(%s) keeps %s, admissible: %s" % ({k: q(v) for k, v in p.items()}, x.tolist() if (a, b) != (0.0, 1.0) else c["x"], got, masks)
+    x = x0
+    got = [int(i) + 1 for i in np.flatnonzero(aset(x))] if aset(x) is not Ellipsis else list(range(1, len(x) + 1))
     # the aggregation module applies it: with undamped scaling the output is the true extreme of the kept entries
     if got:
         s = pym.Signal("x", x + 1.0)
